@@ -527,6 +527,12 @@ impl Read for SimReader {
         }
         self.eintr_run = 0;
         let remaining = self.data.len() - self.pos;
+        if remaining == 0 {
+            // end of the stored bytes reported: the source stays at EOF from now on (a later call,
+            // e.g. a second decode(), sees an empty stream, not a late fault)
+            self.done = true;
+            return Ok(0);
+        }
         let want = match clock::choose(6) {
             0 => remaining,
             1 => 64,
@@ -777,6 +783,8 @@ fn ref_expect(b: &[u8], trap: &str, calls: &[TrapCall]) -> (Expect, usize, Optio
 
 #[derive(Debug, Clone, PartialEq)]
 enum Res {
+    /// the decoder kept state between two decode() calls
+    Reuse(String),
     Docs(String),
     Scan(String),
     Decode(String),
@@ -786,6 +794,7 @@ enum Res {
 impl Res {
     fn kind(&self) -> &'static str {
         match self {
+            Res::Reuse(_) => "reuse",
             Res::Docs(_) => "Ok",
             Res::Scan(_) => "Err(Scan)",
             Res::Decode(_) => "Err(Decode)",
@@ -794,7 +803,7 @@ impl Res {
     }
     fn short(&self) -> String {
         let s = match self {
-            Res::Docs(s) | Res::Scan(s) | Res::Decode(s) | Res::Io(s) => s,
+            Res::Docs(s) | Res::Scan(s) | Res::Decode(s) | Res::Io(s) | Res::Reuse(s) => s,
         };
         let t: String = s.chars().take(200).collect();
         format!("{}: {t}", self.kind())
@@ -835,8 +844,7 @@ pub fn execute(case: &Case, record_seed: Option<u64>) -> Outcome {
         let reader = SimReader::new(bytes.clone(), allow_hard, allow_early);
         let mut dec = YamlDecoder::read(reader);
         dec.encoding_trap(trap);
-        let r = dec.decode();
-        match r {
+        let first = match dec.decode() {
             Ok(docs) => Res::Docs(format!("{docs:?}")),
             Err(e) => {
                 let dbg = format!("{e:?}");
@@ -848,7 +856,19 @@ pub fn execute(case: &Case, record_seed: Option<u64>) -> Outcome {
                     Res::Decode(e.to_string())
                 }
             }
+        };
+        // Call history on the decoder: the source is exhausted now (the simulated reader keeps
+        // returning Ok(0)), so a second decode() must see an empty stream, not stale state.
+        if clock::choose(4) == 1 {
+            let again = match dec.decode() {
+                Ok(docs) => format!("Ok({docs:?})"),
+                Err(e) => format!("Err({e})"),
+            };
+            if again != "Ok([])" {
+                return Res::Reuse(format!("a second decode() on the exhausted source returned {}", again.chars().take(160).collect::<String>()));
+            }
         }
+        first
     });
     let decode_ticks = saphyr::verif_hooks::decode_ticks();
     saphyr::verif_hooks::set_decode_budget(u64::MAX);
@@ -889,8 +909,10 @@ pub fn execute(case: &Case, record_seed: Option<u64>) -> Outcome {
                 saphyr::verif_hooks::decode_ticks().max(decode_ticks)
             ),
         )),
+        Guarded::Ok(Res::Reuse(m)) => Some(("WRONG-RESULT(decoder-reuse)".into(), m)),
         Guarded::Ok(res) => {
             match &res {
+                Res::Reuse(_) => {}
                 Res::Docs(_) => probe(Probe::DecodeOk),
                 Res::Scan(_) => probe(Probe::DecodeErrScan),
                 Res::Decode(_) => probe(Probe::DecodeErrDecode),
